@@ -401,7 +401,7 @@ def miri_crate(tag):
     import shutil
     import common
     base = common.instantiate_crate("mirileg")
-    d = common.cache_dir("crates", "mirileg-%s-%s" % (common.repo_key(), tag))
+    d = common.cache_dir("crates", "mirileg-%s-%s-%s" % (common.repo_key(), toolrun.run_id(), tag))
     for f in ("Cargo.toml", "Cargo.lock"):
         shutil.copy(os.path.join(base, f), os.path.join(d, f))
     os.makedirs(os.path.join(d, "src"), exist_ok=True)
@@ -428,7 +428,7 @@ def run_miri_programs(seed, n, tag, profile=None, ncalls=25, flags_for=lambda i:
     for i in range(n):
         prog, sc = make_program(seed, i, profile, ncalls)
         res = {"idx": i, "prog": prog, "script": sc, "calls": sum(1 for s in sc.steps if s["kind"] == "call"), "events": len(sc.expected),
-               "bin": "%s_p%d" % (tag, i), "dir": crate, "lang": "miri"}
+               "bin": "%s_%s_p%d" % (tag, re.sub(r"\W", "", toolrun.run_id()).lower(), i), "dir": crate, "lang": "miri"}
         try:
             prog.epilogue = emit_rsdrv.RsEmitter(sc).emit()
         except emit_rsdrv.Unsupported as e:
